@@ -46,6 +46,7 @@ func init() {
 		out := fs.String("out", "", "trace NDJSON")
 		bout := fs.String("behaviours", "", "where to save the drawn behaviours")
 		workers := fs.Int("workers", runtime.NumCPU(), "parallel worlds")
+		focus := fs.Int("focus", 0, "message type whose forgeries get extra weight (64, 22, 32)")
 		_ = fs.Parse(args)
 		var cs []srvexec.Config
 		if err := json.Unmarshal([]byte(*cfgs), &cs); err != nil || len(cs) == 0 {
@@ -68,7 +69,7 @@ func init() {
 		for i := 0; i < *n; i++ {
 			c := cs[i%len(cs)]
 			c.Seed = rng.Int63()
-			bs = append(bs, srvexec.RandomBehaviour(rng, c, *ln, f2))
+			bs = append(bs, srvexec.RandomBehaviour(rng, c, *ln, f2, *focus))
 		}
 		if *bout != "" {
 			data, _ := json.Marshal(bs)
